@@ -40,12 +40,12 @@ PLANS = {
         "assumptions": COMMON_ASSUME,
     },
     "C03": {
-        "rule": "sim engine with receive-window reconfiguration (set_target_window_size / set_initial_window_size up and down), resets, early RecvStream drops, unpolled pushes; hook-H2 snapshot invariants after every connection poll (available + in_flight == target; conn in_flight == sum of stream in_flight; per-stream available + in_flight == initial window) plus the quiescence oracle for stalls. Non-trivial iff data was delivered and a stream was non-cooperative (reset/drop/stop) or a local window was reconfigured; distinct by behaviour fingerprint.",
-        "quick": [sim("recvwindow", 10000), sim("resets", 3000), sim("settings", 3000)],
-        "thorough": [sim("recvwindow", 240000), sim("resets", 80000), sim("settings", 80000)],
+        "rule": "sim engine with receive-window reconfiguration (set_target_window_size / set_initial_window_size up and down), resets, early RecvStream drops, unpolled pushes; hook-H2 snapshot invariants after every connection poll (available + in_flight == target; conn in_flight == sum of stream in_flight; per-stream available + in_flight == initial window) plus, whenever the world is quiescent, a probe of the state each endpoint sleeps in (no released credit above h2's update threshold may be sitting unadvertised). raw engine, window family: a scripted client sends legal DATA with random padding (0..255) to an h2 server whose application consumes (releasing at once, lagging, or only by dropping), holds, partially reads, drops or resets the bodies, to streams refused beyond the concurrency limit and to streams the peer resets itself; same snapshot invariants around every connection poll, and at the end (all handlers finished, connection alive, one PING round trip) nothing may remain in flight, the window the endpoint believes it advertised must equal initial + WINDOW_UPDATEs - flow-controlled bytes computed from the wire, and that window must be back within the update threshold of the configured size. Non-trivial iff data was delivered and a stream was non-cooperative (reset/drop/stop) or a local window was reconfigured (sim), or the final check ran (raw); distinct by behaviour fingerprint.",
+        "quick": [sim("recvwindow", 10000), sim("resets", 3000), sim("settings", 3000), raw("window", 1600)],
+        "thorough": [sim("recvwindow", 240000), sim("resets", 80000), sim("settings", 80000), raw("window", 60000)],
         "min_nontrivial": {"quick": 500, "thorough": 5000},
-        "require_stats": {"quick": {"snapshots": 100000}, "thorough": {}},
-        "assumptions": COMMON_ASSUME + ["snapshot invariants are evaluated on the copy taken by hook H2 under h2's own lock"],
+        "require_stats": {"quick": {"snapshots": 100000, "quiescence_probes": 300, "window.final_checks": 1000, "window.padded_frames": 5000, "window.refused_streams_seen": 30}, "thorough": {}},
+        "assumptions": COMMON_ASSUME + ["snapshot invariants are evaluated on the copy taken by hook H2 under h2's own lock", "h2 advertises released credit only once it reaches half of the advertised window (by design): 'returns to its configured size' is judged up to that threshold on the wire and exactly on the endpoint's own books (available + in flight == target, in flight == 0 when nothing is held)"],
     },
     "C04": {
         "rule": "sim engine dominated by resets/drops at random instants, low concurrency limits, pushes on several parents, near-exhausted stream ids; RFC 9113 5.1/6 grammar automaton over each endpoint's own output. Non-trivial iff a CONTINUATION was used, a reset/abort raced with queued frames, ids neared exhaustion or a stream was non-cooperative; distinct by behaviour fingerprint.",
